@@ -225,7 +225,9 @@ func rejectionProgs() []*LazyProgram {
 			func(s string) bool { return len(s) >= 2 }, BPanicStr),
 		progGen("Int8().Filter(even)/>=4", func() *rapid.Generator[int8] { return rapid.Int8().Filter(func(i int8) bool { return i%2 == 0 }) },
 			func(i int8) bool { return i >= 4 }, BFatalB),
-		progGen("SliceOfNDistinct(IntRange(0,3),1,3)/sum>=3", func() *rapid.Generator[[]int] { return rapid.SliceOfNDistinct(rapid.IntRange(0, 3), 1, 3, rapid.ID[int]) },
+		progGen("SliceOfNDistinct(IntRange(0,3),1,3)/sum>=3", func() *rapid.Generator[[]int] {
+			return rapid.SliceOfNDistinct(rapid.IntRange(0, 3), 1, 3, rapid.ID[int])
+		},
 			func(s []int) bool {
 				n := 0
 				for _, x := range s {
